@@ -313,6 +313,10 @@ def merge(c, a, b):
         return a._merge(c, b)
     if isinstance(a, dict) and isinstance(b, dict) and a.keys() == b.keys():
         return {k: merge(c, a[k], b[k]) for k in a}
+    if type(a) is dict and type(b) is dict and len(a) < 64 and len(b) < 64:
+        # the branches added different keys: a dictionary whose entries are present under guards
+        from gsv import colsym
+        return colsym.GDict(a)._merge(c, colsym.GDict(b))
     if isinstance(a, (list, tuple)) and type(a) is type(b) and len(a) == len(b):
         return type(a)(merge(c, x, y) for x, y in zip(a, b))
     ya, yb = (pytype(a) if not is_sym(a) else a.ty), (pytype(b) if not is_sym(b) else b.ty)
@@ -993,9 +997,8 @@ class Frame:
             idx = self.ev(target.slice, env)
             if is_sym(base):
                 raise Unsupported("store into symbolic scalar")
-            if is_sym(idx) and type(base) is dict and isinstance(target.value, ast.Name):
-                from gsv import colsym
-                base = colsym.GDict(base)
+            if is_sym(idx) and _plain_mapping(base) and isinstance(target.value, ast.Name):
+                base = _to_gdict(base)
                 env[target.value.id] = base
             elif is_sym(idx) and not hasattr(base, "_symarray"):
                 raise Unsupported("symbolic store index into concrete container")
@@ -1028,6 +1031,9 @@ class Frame:
             if isinstance(st.target, ast.Subscript):
                 base = self.ev(st.target.value, env)
                 idx = self.ev(st.target.slice, env)
+                if is_sym(idx) and _plain_mapping(base) and isinstance(st.target.value, ast.Name):
+                    base = _to_gdict(base)
+                    env[st.target.value.id] = base
                 cur = subscript(base, idx) if (is_sym(idx) or isinstance(base, Choice)) else base[idx]
                 base[idx] = binop(st.op, cur, self.ev(st.value, env))
                 return g
@@ -1424,6 +1430,23 @@ class Frame:
             else:
                 kwargs[k.arg] = self.ev(k.value, env)
         return call_value(f, args, kwargs)
+
+
+def _plain_mapping(x):
+    import collections
+    return type(x) is dict or type(x) is collections.Counter or type(x) is collections.defaultdict
+
+
+def _to_gdict(x):
+    """dict / Counter / defaultdict -> guarded dictionary (Counter and defaultdict keep their default)"""
+    import collections
+    from gsv import colsym
+    d = colsym.GDict(dict(x))
+    if type(x) is collections.Counter:
+        d.default, d.has_default = 0, True
+    elif type(x) is collections.defaultdict and x.default_factory is not None:
+        d.default, d.has_default = x.default_factory(), True
+    return d
 
 
 def copy_env(env):
